@@ -332,7 +332,10 @@ func (h *ipv6HeaderTLVOption) serializeTo(data []byte, fixLengths bool, dryrun b
 	if !dryrun {
 		data[0] = h.OptionType
 		data[1] = h.OptionLength
-		copy(data[2:], h.OptionData)
+		// OptionLength decides how many bytes the option occupies: longer
+		// data is cut off and shorter data is padded with zeros.
+		n := copy(data[2:length], h.OptionData)
+		clear(data[2+n : length])
 	}
 	return length
 }
